@@ -49,7 +49,7 @@ package vnet
 //@ ghost global chLen map[mathint]mathint
 //@ func (c Chunk) UserData() (r []byte)
 //@   pure
-//@   ensures len(r) == chLen[ref(c)]
+//@   ensures len(r) == chLen[ref(c)] && (forall i mathint :: {r[i]} 0 <= i && i < len(r) ==> r[i] == dataByte(chData[ref(c)], i))
 //@ func (c Chunk) SourceAddr() (r net.Addr)
 //@   pure
 //@   ensures r != nil && addrStr[ref(r)] == chSrc[ref(c)] && addrNet[ref(r)] == chNet[ref(c)] && validAddr(chSrc[ref(c)])
@@ -191,7 +191,7 @@ package vnet
 //@            !(tLook > atlock(n.inboundMap[n.ikey(chDst[ref(from)])].expires)) &&
 //@            atlock(n.fkeyIn(from) in n.inboundMap[n.ikey(chDst[ref(from)])].filters))
 //@   ensures [owner] to != nil ==> err == nil && chDst[ref(to)] == atlock(n.inboundMap[n.ikey(chDst[ref(from)])].local) &&
-//@            chSrc[ref(to)] == chSrc[ref(from)] && chData[ref(to)] == chData[ref(from)]
+//@            chSrc[ref(to)] == chSrc[ref(from)] && chData[ref(to)] == chData[ref(from)] && chNet[ref(to)] == chNet[ref(from)]
 //@   ensures [drop] to == nil ==> err != nil
 //@   ensures [norefresh] forall m *mapping :: {m.expires} m.expires == atlock(m.expires) && m.filters == atlock(m.filters)
 //@   ensures [nopermission] forall m *mapping, k string :: {k in m.filters} (k in m.filters) == atlock(k in m.filters)
@@ -275,6 +275,8 @@ package vnet
 //@ ghost global rtItem mathint
 //@ ghost global rtHanded mathint
 //@ ghost global rtEntered mathint
+//@ ghost global rtFrom mathint
+//@ ghost global rtTo mathint
 //@ func (c Chunk) setTimestamp() (t time.Time)
 //@   modifies clock, chStamp
 //@   ensures clock >= old(clock) && t == clock && chStamp == upd(old(chStamp), ref(c), clock)
@@ -301,7 +303,8 @@ package vnet
 //@   requires r.queue != nil && r.ipv4Net != nil && r.log != nil && r.minDelay >= 0 && (r.parent != nil ==> r.parent.queue != nil && r.parent.log != nil)
 //@   requires r.parent != nil ==> r.nat != nil && r.nat.natType.Mode == NATModeNormal && len(r.nat.mappedIPs) > 0 && r.nat.natType.MappingLifeTime >= 0 &&
 //@            r.nat.natType.FilteringBehavior <= EndpointAddrPortDependent && r.nat.natType.MappingBehavior <= EndpointAddrPortDependent
-//@   modifies randLast, clock, tLook, chSrc, chSrcIP, chStamp, lastPushed, fwdN, fwdNIC, fwdChunk, fwdTick, fwdIdx, fwdItem, upN, upRouter, upChunk, rtIdx, rtItem, rtHanded, rtEntered
+//@   modifies randLast, clock, tLook, chSrc, chSrcIP, chStamp, lastPushed, fwdN, fwdNIC, fwdChunk, fwdTick, fwdIdx, fwdItem, upN, upRouter, upChunk, rtIdx, rtItem, rtHanded, rtEntered, rtFrom, rtTo
+//@   ensures [noerror] err != nil ==> chNet[rtItem] != "udp"
 //@   ensures [popped] r.queue.head >= old(r.queue.head)
 //@   ensures [due] forall k mathint :: {fwdNIC[k]} old(fwdN) <= k && k < fwdN ==> chStamp[fwdChunk[k]] + r.minDelay <= fwdTick[k] && fwdTick[k] <= clock && old(clock) <= fwdTick[k]
 //@   ensures [fifo] forall k mathint :: {fwdNIC[k]} old(fwdN) <= k && k < fwdN ==> old(r.queue.head) <= fwdIdx[k] && fwdIdx[k] < r.queue.head &&
@@ -315,8 +318,9 @@ package vnet
 //@   ghost after Now#1: rtHanded = r.queue.head - 1; rtEntered = result$
 //@   loop 2 invariant [idx] 0 <= i
 //@   ghost after pop#1: assert [head] result$1 ==> ref(result$0) == ref(chunk); rtIdx = r.queue.head - 1; rtItem = ref(result$0)
-//@   ghost before onInboundChunk#1: assert [due] chStamp[ref(chunk)] + r.minDelay <= rtEntered; assert [once] rtHanded < rtIdx && rtItem == ref(chunk); rtHanded = rtIdx; fwdIdx[fwdN] = rtIdx; fwdItem[fwdN] = rtItem; fwdTick[fwdN] = rtEntered
-//@   ghost before push#1: assert [dueup] chStamp[rtItem] + r.minDelay <= rtEntered; assert [onceup] rtHanded < rtIdx; rtHanded = rtIdx
+//@   ghost before onInboundChunk#1: assert [route] inNet(ref(r.ipv4Net), chDstIP[ref(chunk)]) && (chDstIP[ref(chunk)] in r.nics) && r.nics[chDstIP[ref(chunk)]] == nic; assert [due] chStamp[ref(chunk)] + r.minDelay <= rtEntered; assert [once] rtHanded < rtIdx && rtItem == ref(chunk); rtHanded = rtIdx; fwdIdx[fwdN] = rtIdx; fwdItem[fwdN] = rtItem; fwdTick[fwdN] = rtEntered
+//@   ghost after translateOutbound#1: rtFrom = ref(chunk); rtTo = ref(result$0)
+//@   ghost before push#1: assert [routeup] !inNet(ref(r.ipv4Net), chDstIP[rtItem]) && rtFrom == rtItem && ref(toParent) == rtTo && toParent != nil; assert [dueup] chStamp[rtItem] + r.minDelay <= rtEntered; assert [onceup] rtHanded < rtIdx; rtHanded = rtIdx
 
 // ---- token bucket filter (C15).  Ideal bucket (ghost, on the filter's own clock): tbIdeal tokens at time tbAt;
 // ---- it starts full, gains rate/8 bytes per second up to the burst, loses the size of every forwarded chunk and must
@@ -547,6 +551,8 @@ package vnet
 //@ func (c *UDPConn) onInboundChunk(chunk Chunk)
 //@   modifies handedN, handedSock
 //@   ensures handedN == old(handedN) + 1 && handedSock == upd(old(handedSock), old(handedN), ref(c))
+//@   ensures [queued] sent(c.readCh) > atlock(sent(c.readCh)) ==> msg(c.readCh, lastsendon(c.readCh)) == chunk && !atlock(c.closed)
+//@   ensures [dropped] sent(c.readCh) == atlock(sent(c.readCh)) ==> atlock(c.closed) || atlock(len(c.readCh) >= cap(c.readCh))
 //@   ghost at return: handedSock[handedN] = ref(c); handedN = handedN + 1
 
 //@ func (c *UDPConn) Close() (err error)
@@ -565,6 +571,51 @@ package vnet
 //@   ensures [covering] handedN == old(handedN) + 1 ==> handedSock[old(handedN)] == lastFind && lastFind != 0
 //@   ensures [deliver] chNet[ref(c)] == "udp" && lastFind != 0 ==> handedN == old(handedN) + 1
 
+// ---- per-hop contracts of the datagram path (C01).  chData: identity of a chunk's payload bytes (dataByte(id, i): its i-th
+// ---- byte); translations and clones keep it.  wrN / wrChunk: log of connObserver.write calls.
+//@ uf dataByte(id mathint, i mathint) mathint
+//@ ghost global wrN mathint
+//@ ghost global wrChunk map[mathint]mathint
+//@ func (o connObserver) write(c Chunk) (err error)
+//@   modifies wrN, wrChunk
+//@   ensures wrN == old(wrN) + 1 && wrChunk[old(wrN)] == ref(c)
+//@ func (o connObserver) determineSourceIP(locIP net.IP, dstIP net.IP) (r net.IP)
+//@   pure
+//@   ensures !ipUnspec[base(locIP)] ==> ipStr[base(r)] == ipStr[base(locIP)] && r != nil
+
+// a child router receiving from its parent: translate the destination back through the NAT, then route; refused -> dropped
+//@ func (r *Router) onInboundChunk(c Chunk)
+//@   requires c != nil && r.nat != nil && r.queue != nil && r.log != nil && r.nat.natType.Mode == NATModeNormal && r.nat.natType.MappingLifeTime >= 0 &&
+//@            r.nat.natType.FilteringBehavior <= EndpointAddrPortDependent
+//@   modifies clock, tLook, chDst, chDstIP, chStamp, lastPushed, upN, upRouter, upChunk
+//@   ensures [atmost] upN == old(upN) || upN == old(upN) + 1
+//@   ensures [self] upN == old(upN) + 1 ==> upRouter[old(upN)] == ref(r) && chData[upChunk[old(upN)]] == chData[ref(c)] && chSrc[upChunk[old(upN)]] == chSrc[ref(c)] &&
+//@            chNet[upChunk[old(upN)]] == chNet[ref(c)]
+
+// a host hands a datagram to its router exactly once (loopback destinations go to the covering local socket instead)
+//@ func (v *Net) write(chunk Chunk) (err error)
+//@   requires chunk != nil && ref(chunk) != 0 && v.udpConns != nil && (v.router != nil ==> v.router.queue != nil && v.router.log != nil)
+//@   modifies clock, chStamp, lastPushed, lastFind, upN, upRouter, upChunk, handedN, handedSock
+//@   ensures [router] err == nil && !(chNet[ref(chunk)] == "udp" && isLoopbackStr(chDstIP[ref(chunk)])) ==> upN == old(upN) + 1 && upRouter[old(upN)] == ref(v.router) && upChunk[old(upN)] == ref(chunk) && handedN == old(handedN)
+//@   ensures [loop] chNet[ref(chunk)] == "udp" && typeis(chunk, *chunkUDP) && isLoopbackStr(chDstIP[ref(chunk)]) ==> err == nil && upN == old(upN) &&
+//@            (handedN == old(handedN) || (handedN == old(handedN) + 1 && handedSock[old(handedN)] == lastFind && lastFind != 0))
+//@   ensures [fail] err != nil ==> upN == old(upN) && handedN == old(handedN)
+
+//@ trusted func newChunkUDP(srcAddr *net.UDPAddr, dstAddr *net.UDPAddr) (c *chunkUDP)
+//@   requires srcAddr != nil && dstAddr != nil
+//@   ensures c != nil && fresh(c) && c.sourcePort == srcAddr.Port && c.destinationPort == dstAddr.Port && c.chunkIP.sourceIP == srcAddr.IP && c.chunkIP.destinationIP == dstAddr.IP
+
+// a write builds one chunk: fresh copy of the payload, destination as given, source = the socket's own port on the source
+// IP chosen by the host; the caller's buffer is neither kept nor modified
+//@ func (c *UDPConn) WriteTo(payload []byte, addr net.Addr) (n int, err error)
+//@   requires c.obs != nil && c.locAddr != nil && (typeis(addr, *net.UDPAddr) ==> ptr(addr, *net.UDPAddr) != nil)
+//@   modifies wrN, wrChunk
+//@   ensures [once] wrN == old(wrN) || wrN == old(wrN) + 1
+//@   ensures [ok] err == nil ==> n == len(payload) && wrN == old(wrN) + 1
+//@   ensures [none] (!typeis(addr, *net.UDPAddr) ==> err != nil && wrN == old(wrN))
+//@   ensures [frame] forall i mathint :: {payload[i]} 0 <= i && i < len(payload) ==> payload[i] == old(payload[i])
+//@   ghost before write#1: assert [copy] fresh(base(chunk.userData)) && len(chunk.userData) == len(payload) && (forall i mathint :: {chunk.userData[i]} 0 <= i && i < len(payload) ==> chunk.userData[i] == payload[i]); assert [addr] chunk.sourcePort == c.locAddr.Port && chunk.destinationPort == ptr(addr, *net.UDPAddr).Port && chunk.chunkIP.destinationIP == ptr(addr, *net.UDPAddr).IP
+
 // ---- UDP sockets: read deadline (C10)
 //@ pure isTimeout(err error) bool = typeis(err, *net.OpError) && typeis(ptr(err, *net.OpError).Err, *timeoutError)
 
@@ -576,6 +627,10 @@ package vnet
 //@   ensures [deadline.persist] rdExpired ==> n == 0 && isTimeout(err)
 //@   ensures [deadline.nospurious] isTimeout(err) ==> n == 0 && closed(rdLast)
 //@   ensures [n] 0 <= n && n <= len(p)
+//@   ensures [payload] addr != nil ==> n == min(len(p), chLen[ref(msg(c.readCh, lastrecv()))]) && addrStr[ref(addr)] == chSrc[ref(msg(c.readCh, lastrecv()))] &&
+//@            (forall i mathint :: {p[i]} 0 <= i && i < n ==> p[i] == dataByte(chData[ref(msg(c.readCh, lastrecv()))], i)) &&
+//@            (c.remAddr != nil ==> addrStr[ref(addr)] == udpStr(ipStr[base(c.remAddr.IP)], c.remAddr.Port))
+//@   ensures [short] addr != nil ==> (err != nil) == (n < chLen[ref(msg(c.readCh, lastrecv()))])
 
 //@ func (c *UDPConn) Read(b []byte) (n int, err error)
 //@   requires c.readDeadline != nil && c.readCh != nil && c.locAddr != nil
@@ -665,6 +720,7 @@ package vnet
 //@ property C03: networkAddressTranslator.translateInbound, networkAddressTranslator.removeMapping
 //@ property C14: chunkQueue.push, chunkQueue.pop, chunkQueue.peek, DelayFilter.onInboundChunk, DelayFilter.Run, Router.push, Router.processChunks, Router.AddChunkFilter
 //@ property C15: TokenBucketFilter.refillTokens, TokenBucketFilter.drainQueue, TokenBucketFilter.run, TokenBucketFilter.onInboundChunk, chunkQueue.push, chunkQueue.pop, chunkQueue.peek
+//@ property C01: Router.processChunks, Router.push, Router.onInboundChunk, Net.write, Net.onInboundChunk, UDPConn.WriteTo, UDPConn.ReadFrom, UDPConn.onInboundChunk, chunkQueue.push, chunkQueue.pop, chunkQueue.peek, udpConnMap.find
 //@ property C13: Router.assignIPAddress, Router.addNIC, udpConnMap.insert, udpConnMap.find, udpConnMap.delete, newUDPConn, UDPConn.onInboundChunk, UDPConn.Close, Net.onInboundChunk, Net.onClosed, Net.allocateLocalAddr, Net.assignPort, Net._dialUDP
 //@ property C10: UDPConn.ReadFrom, UDPConn.Read, UDPConn.SetReadDeadline, UDPConn.SetDeadline
 //@ property C16: NewLossFilter, LossFilter.onInboundChunk
